@@ -2,6 +2,7 @@ SPECIFICATION TraceSpec
 CONSTANTS
   Reqs <- TraceReqs
   Dups = {}
+  FailIdx = {}
   RegisterFirst = TRUE
 INVARIANTS NoSpurious MatchOnce
 CONSTRAINT HighWater
